@@ -1,0 +1,14 @@
+//go:build verif
+
+package state
+
+// VerifOrderTasks, when set, may reorder in place the slice State.Tasks() is about
+// to return, so that a verification harness owns the otherwise random map order
+// (verification builds only).
+var VerifOrderTasks func(tasks []*Task)
+
+func verifOrderTasks(tasks []*Task) {
+	if VerifOrderTasks != nil {
+		VerifOrderTasks(tasks)
+	}
+}
